@@ -4,6 +4,7 @@ import (
 	"encoding/binary"
 	"math"
 	"math/rand/v2"
+	"sync"
 )
 
 // ---------- alphabets ----------
@@ -31,7 +32,7 @@ func pick[T any](r *rand.Rand, xs []T) T { return xs[r.IntN(len(xs))] }
 var alphaPieces = []string{"a", "b", "\x04", "\x01", "\x02", "\x00", "#", ":", "*", "\x06", "\x07"}
 
 var baseAlphas struct {
-	done                                       bool
+	done                                      bool
 	small, str, key, cond, oid, simple, ufObj []string
 }
 
@@ -194,7 +195,36 @@ func genTuples(r *rand.Rand, objs, rels, users []string) []tup {
 var storeAlpha = []string{"S", "T", "", "S\x04\x01M", "SM"}
 var modelAlpha = []string{"M", "N", "", "M\x06\x00"}
 
+// pendingTwin holds, per PRNG (one per worker), an input whose contextual tuples will be presented once
+// more in another order: "tuple component order does not affect the invariant hash" is only exercised
+// when the same multiset of tuples really arrives in two orders.
+var (
+	pendingTwinMu sync.Mutex
+	pendingTwin   = map[*rand.Rand]*invIn{}
+)
+
 func genInv(r *rand.Rand) invIn {
+	pendingTwinMu.Lock()
+	tw := pendingTwin[r]
+	delete(pendingTwin, r)
+	pendingTwinMu.Unlock()
+	if tw != nil {
+		out := *tw
+		out.tuples = append([]tup(nil), tw.tuples...)
+		r.Shuffle(len(out.tuples), func(i, j int) { out.tuples[i], out.tuples[j] = out.tuples[j], out.tuples[i] })
+		return out
+	}
+	in := genInvFresh(r)
+	if len(in.tuples) >= 2 && r.IntN(3) == 0 {
+		cp := in
+		pendingTwinMu.Lock()
+		pendingTwin[r] = &cp
+		pendingTwinMu.Unlock()
+	}
+	return in
+}
+
+func genInvFresh(r *rand.Rand) invIn {
 	in := invIn{store: pick(r, storeAlpha), model: pick(r, modelAlpha), tuples: genTuples(r, objAlpha, relAlpha, userAlpha)}
 	if r.IntN(3) == 0 {
 		in.ctx = genCtx(r)
